@@ -54,9 +54,16 @@ def check_detector():
     fails, n = [], 0
     real_random = dmod.random
     try:
-        for eff, pd, counting in itertools.product((1.0, 0.6), (0.0, 0.2), (True, False)):
-            det = emulator.Detector(efficiency=eff, p_dark=pd, photon_counting=counting)
-            for st in detector_cases():
+        for (eff, pd, counting), how in itertools.product(itertools.product((1.0, 0.6), (0.0, 0.2), (True, False)), ("constructor", "setters", "setters-after-use")):
+            if how == "constructor":
+                det = emulator.Detector(efficiency=eff, p_dark=pd, photon_counting=counting)
+            else:
+                # the same settings reached through the property setters of an object that was created (and possibly used) as an ideal detector
+                det = emulator.Detector()
+                if how == "setters-after-use":
+                    det._get_output(lw.State([1, 0]))
+                det.efficiency, det.p_dark, det.photon_counting = eff, pd, counting
+            for st in (list(detector_cases()) if how == "constructor" else list(detector_cases())[::3]):
                 k = sum(st) if eff < 1 else 0
                 d = len(st) if pd > 0 else 0
                 for outcome in itertools.product((False, True), repeat=k + d):
@@ -79,7 +86,7 @@ def check_detector():
                         got, err = None, "consumed more random draws than the kernel specifies"
                     want, _ = spec_kernel(st, eo, do if pd > 0 else [False] * len(st), counting, eff < 1, pd > 0)
                     if err or got != want or used[0] != k + d:
-                        fails.append((dict(state=st, efficiency=eff, p_dark=pd, photon_counting=counting, draws=[bool(x) for x in outcome]),
+                        fails.append((dict(state=st, efficiency=eff, p_dark=pd, photon_counting=counting, configured_by=how, draws=[bool(x) for x in outcome]),
                                       err or f"output {got}, kernel gives {want}; draws used {used[0]} of {k + d}"))
             # boundary values of the draws: detected iff random() <= efficiency, dark count iff random() < p_dark
             if eff < 1:
